@@ -256,11 +256,22 @@ impl DocumentBuilder {
         Ok(self.add(Value::Text(Text::new(content.to_string())), xot))
     }
 
-    fn cdata_text(&mut self, content: &str, xot: &mut Xot) -> Result<NodeId, ParseError> {
+    fn cdata_text(
+        &mut self,
+        content: &str,
+        xot: &mut Xot,
+    ) -> Result<Option<NodeId>, ParseError> {
         if let Some(last) = self.consolidate_text(content, xot) {
-            return Ok(last);
+            return Ok(Some(last));
         }
-        Ok(self.add(Value::Text(Text::new(content.to_string())), xot))
+        if content.is_empty() {
+            // an empty CDATA section is no character data at all; there are
+            // no empty text nodes
+            return Ok(None);
+        }
+        Ok(Some(
+            self.add(Value::Text(Text::new(content.to_string())), xot),
+        ))
     }
 
     fn close_element_immediate(&mut self, xot: &mut Xot) -> NodeId {
@@ -745,8 +756,9 @@ impl Xot {
                         // line ends are normalized inside CDATA sections too
                         // https://www.w3.org/TR/xml/#sec-line-ends
                         let content = text.as_str().replace("\r\n", "\n").replace('\r', "\n");
-                        let node_id = builder.cdata_text(&content, self)?;
-                        span_info.extend_text_span(node_id.into(), text.into());
+                        if let Some(node_id) = builder.cdata_text(&content, self)? {
+                            span_info.extend_text_span(node_id.into(), text.into());
+                        }
                     }
                     ElementStart {
                         prefix,
